@@ -16,4 +16,4 @@ cd /repo && git apply $W/patch.diff || { echo "patch does not apply to /repo"; e
 cd /verif
 unset CARGO_TARGET_DIR
 for P in $PROPS; do echo "== check $P with patch"; ./check $P 2>&1 | tail -3; cp evidence/$P.json /tmp/scratch/evidence_$ID_$P.json 2>/dev/null; done
-git -C /repo checkout -- . && echo "== reverted /repo: $(git -C /repo status --short | wc -l) changes left"
+git -C /repo checkout -- . && (cd /verif/harness && CARGO_TARGET_DIR=/verif/.build/cargo cargo build --offline --release 2>&1 | tail -1) && echo "== reverted /repo: $(git -C /repo status --short | wc -l) changes left"
